@@ -392,3 +392,17 @@ fn c11_madt_gic_msi_spi_select_flag_gates_the_values() {
     assert_eq!(le16_at(&set, 22), 64);
     assert_eq!(le32_at(&set, 16) & 1, 1, "SPI values supplied -> select flag must be set");
 }
+
+// ---- HEST
+#[test]
+fn c01_hest_checksum_after_256_sources() {
+    use acpi_tables::hest::*;
+    let mut t = HEST::new(*b"FOOBAR", *b"DECAFCOF", 1);
+    check_table("HEST(new)", &ser(&t));
+    for i in 0..260u32 {
+        t.add_structure(PcieAerDevice::new_global().num_records(i));
+        let b = ser(&t);
+        check_table(&format!("HEST after {} adds", i + 1), &b);
+        assert_eq!(le32_at(&b, 36), i + 1, "error source count");
+    }
+}
